@@ -64,10 +64,12 @@ class Tracer:
     records whether the last sample differed from the sample taken at entry ("dirty window").
     """
 
-    def __init__(self, pkgdir, target=None, sampler=None):
+    def __init__(self, pkgdir, target=None, sampler=None, cheap=None):
         self.pkgdir = pkgdir
         self.target = target  # index of the event before which the fault is raised
         self.sampler = sampler
+        self.cheap = cheap  # evaluated at *every* line event (the error-state dictionaries, ~2 us)
+        self.cheap_entry = None
         self.events = []  # (file, line)
         self.dirty = []  # bool per event
         self.n = 0
@@ -116,7 +118,7 @@ class Tracer:
             if self.sampler is not None:
                 if self._depth <= 2:
                     self._sample()
-                self.dirty.append(self._cur)
+                self.dirty.append(self._cur or (self.cheap is not None and self.cheap() != self.cheap_entry))
         elif k == self.target:
             self.fired = (os.path.relpath(fn, self.pkgdir), ln, k)
             raise SimFault(f"injected fault before {self.fired[0]}:{ln} (event {k})")
@@ -125,6 +127,8 @@ class Tracer:
     def run(self, call):
         if self.sampler is not None and self.target is None:
             self.entry_sample = self.sampler()
+            if self.cheap is not None:
+                self.cheap_entry = self.cheap()
         old = sys.gettrace()
         sys.settrace(self.global_trace)
         try:
@@ -141,8 +145,8 @@ def choose_fault_event(events, dirty_flags, strategy, d):
     dirty = [i for i, f in enumerate(dirty_flags) if f] if dirty_flags else []
     dset = set(dirty)
     info = {"events": n, "dirty_events": len(dirty)}
-    if strategy == "dirty" and dirty:
-        i = dirty[d % len(dirty)]
+    if dirty and (strategy == "dirty" or (strategy == "sweep" and d % 3 == 0)):
+        i = dirty[(d // 3) % len(dirty)]
         info["in_dirty_window"] = True
         return i, info
     if strategy in ("site", "dirty", "sweep"):
@@ -174,6 +178,10 @@ class ErrCall:
 
     def __call__(self, kind, flag):
         self.count += 1
+
+
+def cheap_ambient():
+    return (np.geterr(), sps.geterr())
 
 
 def ambient_state():
